@@ -230,6 +230,9 @@ def r3_subclass(P, rep, ctx):
         ok = ok and all(g.exit not in g.reach([b for b, l in g.succ[t] if l == "T"]) for t in lst) and all(g.every_path_passes(lst, r, src=e, src_label="T") for e in ext_t for r in rets)
     ok = ok and all(g.every_path_passes(ext_t, r) for r in rets)
     rep.check(ok, "C04.R3", fi.qual, "when the container names a manifest: missing file or differing hash raises, on every path", fi.loc(), construct="manifest existence + hash check", message="IH5MFRecord._open can succeed although the linked manifest is missing or its hash differs")
+    mfd = [norm(v) for k, v in defs.get("manifest_file", []) if v is not None]
+    rep.check(sorted(mfd) == sorted(["kwargs.pop('manifest_file', None)", "cls._manifest_filepath(ret._files[-1].filename)"]), "C04.R3", fi.qual, "the manifest checked is the one given or the one next to the *newest* container", fi.loc(), construct=f"manifest_file = {mfd}",
+              message=f"the manifest file is inferred as {mfd}: not the sidecar of the newest container")
     ub = [norm(v) for k, v in defs.get("ubext", []) if v is not None]
     rep.check(ub == ["IH5UBExtManifest.get(ub)"] and [norm(v) for k, v in defs.get("ub", []) if v is not None] == ["ret._ublock(-1)"], "C04.R3", fi.qual, "the manifest link is taken from the newest container's user block", fi.loc(), construct="ubext source", message="manifest link is not read from the newest container's user block")
     load_after = [n.idx for n in g.nodes if n.kind == "stmt" and "IH5Manifest.parse_file(manifest_file)" in norm(n.stmt)]
@@ -250,6 +253,10 @@ def r4_magic_parse(P, rep, ctx):
     ok = bool(tests) and all(g.exit not in g.reach([b for b, l in g.succ[t.idx] if l == "T"]) for t in tests) and g.every_path_passes([t.idx for t in tests], g.exit)
     rep.check(ok, "C04.R4", fi.qual, "a file without a valid IH5 head raises ValueError", fi.loc(), construct="invalid head raises", message="IH5UserBlock.load does not raise for a file without valid head")
     rep.check("ret = IH5UserBlock.parse_obj(json.loads(head[1]))" in norm(fi.node), "C04.R4", fi.qual, "the block is parsed through the typed model", fi.loc(), construct="typed parse", message="the user block is not validated through IH5UserBlock.parse_obj")
+    from .common import require_total
+
+    for q in (f"{UB}.load", f"{UB}._read_head_raw", f"{R}.IH5Record._open", "ih5.manifest.IH5MFRecord._open", f"{R}.hashsum_file"):
+        require_total(rep, ctx, "C04.R4", P.func(q))
     c = P.cls(UB)
     ann = {k: norm(v) for k, v in c.annots.items()}
     want = {"record_uuid": "UUID", "patch_index": "Annotated[int, Field(ge=0)]", "patch_uuid": "UUID", "prev_patch": "Optional[UUID]", "hdf5_hashsum": "Optional[QualHashsumStr]"}
